@@ -160,6 +160,8 @@ pub fn run_raw_topic(topic: &str, cx: &mut Raw) -> bool {
         "bytecode" => bytecode(cx),
         "parse" => parse(cx),
         "literals" => literals(cx),
+        "fuzz" => fuzz(cx),
+        "ladder" => ladder(cx),
         _ => return false,
     }
     true
@@ -595,5 +597,125 @@ pub fn literals(cx: &mut Raw) {
     }
     for s in ["'", "\"", "'abc", "\"abc'", "b'", "r'", "f'", "f'}'", "f'a}b'", "f'{{'", "f'}}'", "f'{{}}'", "true", "false", "null", "''", "\"\"", "b''", "'\\u0041'", "'\\U0001F600'", "'\\101'", "b'\\101'", "b'\\377'", "b'\\xff'", "'\\xff'", "'\\X41'", "b\"é\""] {
         lit_record(cx, s, false, None);
+    }
+}
+
+// ---------------------------------------------------------------------------------------------
+// C01: arbitrary source text, and nesting ladders in child processes
+
+fn fuzz_record(cx: &mut Raw, src: &str) {
+    let c = compile_record(src, true, false, false);
+    let mut j = c.json;
+    if let Some(prog) = c.program {
+        let res = std::panic::catch_unwind(std::panic::AssertUnwindSafe(|| {
+            let mut ctx = rscel::CelContext::new();
+            ctx.add_program("main", prog);
+            let mut b = rscel::BindContext::new();
+            b.bind_param("a", rscel::CelValue::from_int(1));
+            b.bind_param("b", rscel::CelValue::from_string("s".to_string()));
+            crate::val::outcome(&ctx.exec("main", &b))
+        }));
+        j["exec"] = match res {
+            Ok(o) => o,
+            Err(p) => crate::val::crash(&crate::run::panic_msg(p)),
+        };
+    }
+    cx.emit(j);
+}
+
+pub fn fuzz(cx: &mut Raw) {
+    let g = full_gen();
+    let toks = ["(", ")", "[", "]", "{", "}", ",", ".", ":", "?", "+", "-", "*", "/", "%", "!", "<", "<=", "==", "!=", ">=", ">", "||", "&&", "in", "match", "case", "_", "null", "true", "false",
+        "a", "b", "size", "has", "map", "x", "0", "1", "9223372036854775807", "18446744073709551615u", "1.5", "1e309", ".5", "0x1f", "'s'", "\"é\"", "b'\\xff'", "r'\\'", "f'{a}'", "f'{{'", "int", "dyn", "type", " ", "\n", "\t"];
+    for i in 0..cx.n {
+        let t = g.expr(&mut cx.rng, 1 + (i % 4) as u32);
+        let src = render(&t, Parens::Random, true, &mut cx.rng);
+        fuzz_record(cx, &src);
+        // token-level mutation
+        let mut s = src.clone();
+        for _ in 0..(1 + cx.rng.below(3)) {
+            s = corrupt(&s, &mut cx.rng);
+        }
+        fuzz_record(cx, &s);
+        // a random token soup
+        let n = 1 + cx.rng.below(12);
+        let soup: String = (0..n).map(|_| *cx.rng.pick(&toks)).collect::<Vec<_>>().join(if cx.rng.chance(1, 2) { " " } else { "" });
+        fuzz_record(cx, &soup);
+        // random UTF-8
+        let n = cx.rng.below(16);
+        let rnd: String = (0..n)
+            .map(|_| match cx.rng.below(5) {
+                0 => char::from_u32(cx.rng.below(0x80) as u32).unwrap_or('a'),
+                1 => *cx.rng.pick(&['é', 'ß', '𝄞', '\u{0}', '\u{7f}', '\u{feff}', '\u{2028}', '"', '\'', '\\', '{', '}']),
+                2 => char::from_u32(cx.rng.below(0x110000) as u32).unwrap_or('?'),
+                _ => *cx.rng.pick(&['a', '1', '(', ')', '+', '.', ' ', '[', 'u', 'x', 'e', '-']),
+            })
+            .collect();
+        fuzz_record(cx, &rnd);
+    }
+}
+
+fn ladder_src(shape: &str, d: usize) -> String {
+    match shape {
+        "parens" => format!("{}1{}", "(".repeat(d), ")".repeat(d)),
+        "lists" => format!("{}1{}", "[".repeat(d), "]".repeat(d)),
+        "maps" => format!("{}1{}", "{'k':".repeat(d), "}".repeat(d)),
+        "not" => format!("{}true", "!".repeat(d)),
+        "neg" => format!("{}1", "-".repeat(d)),
+        "notparen" => format!("{}true{}", "!(".repeat(d), ")".repeat(d)),
+        "member" => format!("a{}", ".b".repeat(d)),
+        "index" => format!("a{}", "[0]".repeat(d)),
+        "calls" => format!("{}1{}", "size(".repeat(d), ")".repeat(d)),
+        "ternary" => format!("{}1", "true ? 1 : ".repeat(d)),
+        "ternary_cond" => format!("{}true{}", "(".repeat(d), " ? true : false)".repeat(d)),
+        "match" => format!("{}1{}", "match 1 { case _: ".repeat(d), "}".repeat(d)),
+        "fstring" => {
+            let mut s = "1".to_string();
+            for i in 0..d {
+                let q = if i % 2 == 0 { '\'' } else { '"' };
+                s = format!("f{}{{{}}}{}", q, s, q);
+            }
+            s
+        }
+        "macro" => format!("{}1{}", "[1].map(x, ".repeat(d), ")".repeat(d)),
+        "add" => format!("1{}", " + 1".repeat(d)),
+        "or" => format!("false{}", " || false".repeat(d)),
+        "binparen" => format!("{}1{}", "(1 + ".repeat(d), ")".repeat(d)),
+        _ => "1".to_string(),
+    }
+}
+
+pub fn ladder(cx: &mut Raw) {
+    let shapes = ["parens", "lists", "maps", "not", "neg", "notparen", "member", "index", "calls", "ternary", "ternary_cond", "match", "fstring", "macro", "add", "or", "binparen"];
+    let depths: Vec<usize> = if cx.thorough { vec![4, 8, 12, 16, 24, 32, 48, 64, 128, 256, 512, 1024, 4096] } else { vec![4, 8, 16, 32, 64, 256] };
+    let exe = std::env::current_exe().expect("exe");
+    for shape in shapes {
+        for d in depths.iter() {
+            for thread in [false, true] {
+                let src = ladder_src(shape, *d);
+                let mut cmd = std::process::Command::new(&exe);
+                cmd.arg("child-src");
+                if thread {
+                    cmd.arg("--thread");
+                }
+                cmd.stdin(std::process::Stdio::piped()).stdout(std::process::Stdio::piped()).stderr(std::process::Stdio::null());
+                let mut child = cmd.spawn().expect("spawn");
+                {
+                    use std::io::Write as _;
+                    let mut stdin = child.stdin.take().unwrap();
+                    let _ = stdin.write_all(src.as_bytes());
+                }
+                let out = child.wait_with_output().expect("child");
+                let text = String::from_utf8_lossy(&out.stdout).to_string();
+                let outcome = if out.status.success() {
+                    text.lines().find(|l| l.starts_with('{')).and_then(|l| serde_json::from_str::<J>(l).ok()).unwrap_or(crate::val::crash("no output"))
+                } else if out.status.code() == Some(97) {
+                    crate::val::crash("timeout in child")
+                } else {
+                    crate::val::crash(&format!("child died: {:?}", out.status))
+                };
+                cx.emit(json!({"kind":"ladder","shape":shape,"depth":d,"thread":thread,"out":outcome,"text": if src.len() > 120 { format!("{}...", &src[..120]) } else { src.clone() }}));
+            }
+        }
     }
 }
